@@ -414,6 +414,14 @@ fn receivers_zoned(acc: &mut Acc) {
         }
     }
     recv.push(FixedOffset::east_opt(0).unwrap().from_utc_datetime(&mk_ndt(MAX_DAY, 86399, 1_999_999_999)));
+    // the years at which printed forms change width or sign (renderers, Display, format), reached directly and through an offset
+    for (y, first) in [(0i64, true), (0, false), (-1, false), (1, true), (9999, false), (10000, true), (10000, false), (-9999, true), (-10000, false), (1000, true), (999, false), (99999, false), (100000, true), (-99999, true), (-100000, false)] {
+        let z = if first { days_from_civil(y, 1, 1) } else { days_from_civil(y, 12, 31) };
+        let (s, f) = if first { (0, 0) } else { (86399, 999_999_999) };
+        for o in [0, 1800, -1800, 86399, -86399] {
+            recv.push(FixedOffset::east_opt(o).unwrap().from_utc_datetime(&mk_ndt(z, s, f)));
+        }
+    }
     for dt in &recv {
         let dt = *dt;
         let local_day = date_z(dt.naive_utc().date()) as i128 * 86400 + dt.naive_utc().time().num_seconds_from_midnight() as i128 + dt.offset().local_minus_utc() as i128;
